@@ -221,7 +221,7 @@ func ruleShrinkCapacity(c *Ctx, r *R) {
 		}
 		k++
 		key := "xslices.Shrink|return#" + itoa(k)
-		why := capBounded(ret.Results[0], s, n, b, 0)
+		why := capBounded(returnedValue(ret, 0), s, n, b, 0)
 		r.ok(why == "", key, ret.Pos(), "Shrink must return a slice whose capacity is bounded by len(s)+n: "+why)
 	})
 	if k == 0 {
@@ -1020,7 +1020,7 @@ func ruleIntersectUniversal(c *Ctx, r *R) {
 				return true
 			case *ssa.Return:
 				if len(x.Results) == 1 {
-					if k, ok := x.Results[0].(*ssa.Const); ok && k.Value != nil && k.Value.String() == "true" {
+					if k, ok := returnedValue(x, 0).(*ssa.Const); ok && k.Value != nil && k.Value.String() == "true" {
 						return true
 					}
 				}
